@@ -143,7 +143,9 @@ def build_ferret():
 
 
 def ferret_env(libs):
-    return {"FERRET_LIBS_PATH": libs, "NO_COLOR": "1"}
+    # the compiler is run many times in parallel: two scheduler threads per process keep the Go runtime's per-process overhead
+    # (idle GC workers, spinning Ms) from dominating; checks about scheduling (C14, C15) set GOMAXPROCS themselves
+    return {"FERRET_LIBS_PATH": libs, "NO_COLOR": "1", "GOMAXPROCS": os.environ.get("VERIF_FERRET_PROCS", "2")}
 
 
 ANSI = re.compile(r"\x1b\[[0-9;]*[A-Za-z]")
